@@ -10,8 +10,10 @@ from lib.common import enc_str, enc_strs, dec_str, dec_ostr, model_run_parallel,
 PID = "C11"
 RULE = ("correspondence: every arrangement of <= N events (reference / top-level definition / definition inside a block quote) over "
         "a small label set (named, numeric) under the four footnote_sort x footnote_transition settings, plus random larger "
-        "arrangements (references and definitions inside quotes and list items, references inside definition bodies, missing and "
-        "duplicate and unreferenced labels), published through the docutils front end (and Sphinx builds in the thorough tier); the "
+        "arrangements (references and definitions nested to depth 4 in quotes, list items, definition-list definitions and sections; "
+        "references in table cells, field lists, headings and definition bodies; missing, duplicate and unreferenced labels), "
+        "published through the docutils front end (and Sphinx builds in the thorough tier); separately docutils' Footnotes transform "
+        "alone on exhaustively enumerated hand-built registries against its transcription (O_footnotes_xform); the "
         "extracted Coq pipeline is compared with the real doctree per reference (target label, displayed number), per footnote "
         "(label, number, back-references, body), on the layout of the document's children (in place / collected at the end, order, "
         "transition) and on the ref.footnote warning lines. search: the property clauses evaluated directly on the real doctree. "
@@ -21,7 +23,7 @@ TRUSTED = ["coq/Refs/Foot.v is a hand transcription of render_footnote_ref/_refe
            "gen/c11_transforms.py (priorities and get_transforms lists -> coq/Gen/Transforms.v)",
            "docutils Transformer applies transforms sorted by (priority, insertion order)",
            "the Markdown parser (markdown-it footnote plugin) turns [^l] / [^l]: into footnote_ref / footnote_reference tokens in document order"]
-ORACLES = {"O_footnotes_xform": "docutils.transforms.references.Footnotes (number_footnotes, number_footnote_references, resolve_footnotes_and_citations) and document.note_*: transcribed in Foot.v (docutils_footnotes); every correspondence case runs the real transform",
+ORACLES = {"O_footnotes_xform": "docutils.transforms.references.Footnotes (number_footnotes, number_footnote_references, resolve_footnotes_and_citations) and document.note_*: transcribed in Foot.v (docutils_footnotes); validated on its own by corr_docutils_only (the real transform applied to hand-built docutils documents: extra registered names x orders of auto-numbered footnotes x manual footnotes x reference sequences, exhaustively for small sizes) and exercised by every pipeline case",
            "O_isdigit_int": "Python str.isdigit / int(): passed to the model as a table computed by Python for the labels of the case",
            "O_show": "str(int) = Base.PyStr.show (decimal); used for the numbers docutils assigns"}
 ASSUMPTIONS = ["dict iteration order = insertion order (CPython >= 3.7)",
@@ -31,8 +33,8 @@ LEVEL_TEXT = ("Proof (Coq) over a Gallina transcription of the footnote pipeline
               "UnreferencedFootnotesDetector + CollectFootnotes, ordered by the regenerated priorities), for all arrangements and both settings: "
               "references point at their definition with the same number and are back-linked (C11_refs_point_to_defs), displayed labels are "
               "pairwise distinct (C11_labels_distinct), auto numbers follow first reference when sorting is on (C11_auto_order_partial, "
-              "C11_referenced_first_partial; refuted for sorting off: C11_auto_order_refuted, open finding), numeric labels keep their number "
-              "(C11_manual_keeps_number), collection/ordering/transition (C11_collect_sorted, C11_stay_put), "
+              "C11_referenced_first_partial for any number of references - the 999 constant of the code before 0690b34 is refuted by C11_referenced_first_before_fix_refuted; refuted for sorting off: C11_auto_order_refuted, open finding), numeric labels keep their number "
+              "(C11_manual_keeps_number), collection from any nesting depth/ordering/transition (C11_collect_layout, C11_collect_sorted, C11_stay_put; the document is a rose tree), "
               "duplicates and unreferenced definitions warn once (C11_dup_and_unreferenced), no definition text is lost (C11_no_text_lost), "
               "transform order from the source (C11_transform_order), no fuel exhaustion (C11_total).")
 LEVEL_NOTE = ("Partial: docutils' Footnotes transform and registries are modelled from the installed source (hypothesis-level trust, exercised by "
@@ -51,16 +53,26 @@ def gen(ctx):
 
 # ------------------------------------------------------------------ model side
 
+SETTINGS = {"myst_enable_extensions": ["deflist", "fieldlist"], "doctitle_xform": False}
+KNOWN_MANY = {"kind": "arr", "arr": [["R", ["z"] * 1000 + ["a"]], ["D", "z", []], ["D", "a", []], ["D", "u", []]],
+              "sort": True, "trans": True}
+
+
 def labels_of(arr):
     out = []
-    for it in arr:
-        if it[0] == "R":
-            out += it[1]
-        elif it[0] == "D":
-            out += [it[1]] + it[2]
-        else:
-            for sub in it[2]:
-                out += sub[1] if sub[0] == "r" else [sub[1]] + sub[2]
+
+    def walk(items):
+        for it in items:
+            if it[0] == "R":
+                out.extend(it[1])
+            elif it[0] == "D":
+                out.append(it[1])
+                out.extend(it[2])
+            else:
+                if len(it) > 3:
+                    out.extend(it[3])
+                walk(it[2])
+    walk(arr)
     return list(dict.fromkeys(out))
 
 
@@ -71,63 +83,84 @@ def py_int(s):
         return None
 
 
-def model_line(case):
+def model_line(case, legacy=False):
+    from gen.c11_docs import to_model
     arr = case["arr"]
     labs = labels_of(arr)
-    f = ["run", "1" if case["sort"] else "0", "1" if case["trans"] else "0", "L", str(len(labs))]
+    f = ["run", "1" if legacy else "0", "1" if case["sort"] else "0", "1" if case["trans"] else "0", "L", str(len(labs))]
     for l in labs:
         i = py_int(l)
         f += [enc_str(l), "1" if l.isdigit() else "0", "~" if i is None else str(i)]
-    body = 0
-    for it in arr:
-        if it[0] == "R":
-            f += ["R", enc_strs(it[1])]
-        elif it[0] == "D":
-            body += 1
-            f += ["D", enc_str(it[1]), str(body), enc_strs(it[2])]
-        else:
-            f += ["B", str(len(it[2]))]
-            for sub in it[2]:
-                if sub[0] == "r":
-                    f += ["r", enc_strs(sub[1])]
-                else:
-                    body += 1
-                    f += ["d", enc_str(sub[1]), str(body), enc_strs(sub[2])]
+
+    def enc(items):
+        for it in items:
+            if it[0] == "R":
+                f.extend(["R", enc_strs(it[1])])
+            elif it[0] == "D":
+                f.extend(["D", enc_str(it[1]), str(it[2]), enc_strs(it[3])])
+            else:
+                f.extend(["B", str(len(it[1]))])
+                enc(it[1])
+    enc(to_model(arr))
     return "\t".join(f)
 
 
-def parse_model(reply, info):
-    """-> canonical observation dict (same shape as observe())"""
-    if reply.startswith("!"):
-        return {"exc": reply[1:]}
-    refs_s, foots_s, layout_s, warn_s = reply.split(" # ")
-    refs = []
-    if refs_s != ".":
-        for it in refs_s.split(" "):
-            idx, lab, rid, txt = it.split("!")
-            refs.append({"label": dec_str(lab), "target": dec_ostr(rid), "text": dec_ostr(txt)})
-    foots = {}
-    if foots_s != ".":
-        for it in foots_s.split(" "):
-            lab, disp, back, body = it.split("!")
-            foots[dec_str(lab)] = {"display": dec_str(disp), "backrefs": [] if back == "." else [int(x) for x in back.split("+")],
-                                   "body": int(body)}
-    layout = []
-    if layout_s != ".":
-        for it in layout_s.split(" "):
-            if it in ("O", "M", "T"):
-                layout.append(it)
-            elif it.startswith("F!"):
-                layout.append("F:" + dec_str(it[2:]))
+def parse_layout(tokens):
+    """token stream of the driver -> nested list: "O" | "M" | "T" | "F:label" | ["B", [...]]"""
+    pos = [0]
+
+    def items(closing):
+        out = []
+        while pos[0] < len(tokens):
+            t = tokens[pos[0]]
+            pos[0] += 1
+            if t == "]":
+                if closing:
+                    return out
+                raise ValueError("unbalanced layout")
+            if t == "[":
+                out.append(["B", items(True)])
+            elif t in ("O", "M", "T"):
+                out.append(t)
             else:
-                inner = it[2:]
-                layout.append("B[" + ("" if inner == "." else ",".join(
-                    x if x in ("o", "m") else "f:" + dec_str(x[2:]) for x in inner.split("/"))) + "]")
-    # warnings -> lines of the definitions they are about
+                out.append("F:" + dec_str(t[2:]))
+        return out
+    return items(False)
+
+
+def lay_str(lay):
+    return " ".join(x if isinstance(x, str) else "[" + lay_str(x[1]) + "]" for x in lay)
+
+
+def lay_strip(lay, drop=("F",)):
+    """remove footnotes (drop=("F",)) or messages (("M",)) at every depth"""
+    out = []
+    for x in lay:
+        if isinstance(x, str):
+            if x[0] in drop and (x == "M" or x.startswith("F:")):
+                continue
+            out.append(x)
+        else:
+            out.append(["B", lay_strip(x[1], drop)])
+    return out
+
+
+def lay_foots(lay):
+    out = []
+    for x in lay:
+        if isinstance(x, str):
+            if x.startswith("F:"):
+                out.append(x[2:])
+        else:
+            out += lay_foots(x[1])
+    return out
+
+
+def decode_warns(warn_s, info):
+    """model warnings -> (lines of the definitions they are about, #too-many errors)"""
     wl, too_many = [], 0
     seen = {}
-    first_line = {}
-    dup_lines = {}
+    first_line, dup_lines = {}, {}
     for d in info["defs"]:
         if d["label"] in first_line:
             dup_lines.setdefault(d["label"], []).append(d["line"])
@@ -141,20 +174,50 @@ def parse_model(reply, info):
                 l = dec_str(it[2:])
                 k = seen.get(l, 0)
                 seen[l] = k + 1
-                wl.append(dup_lines.get(l, [None] * (k + 1))[k] if k < len(dup_lines.get(l, [])) else -1)
+                wl.append(dup_lines[l][k] if k < len(dup_lines.get(l, [])) else -1)
             else:
                 _, l, _a = it.split("!")
                 wl.append(first_line.get(dec_str(l), -1))
-    return {"exc": None, "refs": refs, "foots": foots, "layout": layout, "wlines": sorted(wl), "too_many": too_many}
+    return sorted(wl), too_many
+
+
+def decode_refs_foots(refs_s, foots_s):
+    refs = []
+    if refs_s != ".":
+        for it in refs_s.split(" "):
+            idx, lab, rid, txt = it.split("!")
+            refs.append({"label": dec_str(lab), "target": dec_ostr(rid), "text": dec_ostr(txt)})
+    foots = {}
+    if foots_s != ".":
+        for it in foots_s.split(" "):
+            lab, disp, back, body = it.split("!")
+            foots[dec_str(lab)] = {"display": dec_str(disp), "backrefs": [] if back == "." else [int(x) for x in back.split("+")],
+                                   "body": int(body)}
+    return refs, foots
+
+
+def parse_model(reply, info):
+    """-> canonical observation dict (same shape as observe())"""
+    if reply.startswith("!"):
+        return {"exc": reply[1:]}
+    refs_s, foots_s, layout_s, warn_s = reply.split(" # ")
+    refs, foots = decode_refs_foots(refs_s, foots_s)
+    layout = [] if layout_s == "." else parse_layout(layout_s.split(" "))
+    wl, too_many = decode_warns(warn_s, info)
+    return {"exc": None, "refs": refs, "foots": foots, "layout": layout, "wlines": wl, "too_many": too_many}
 
 
 # ------------------------------------------------------------------ implementation side
 
-def abstract_tree(doc):
-    """(refs, foots, layout) of a real doctree."""
+def flabel(f):
+    return (list(f["names"]) + list(f.get("dupnames", [])) + ["?"])[0]
+
+
+def abstract_refs_foots(doc):
     from docutils import nodes
     refnodes = [n for n in doc.findall(lambda n: isinstance(n, (nodes.footnote_reference, nodes.problematic)))
                 if isinstance(n, nodes.footnote_reference) or n.astext().startswith("[^")]
+
     # document order as written = creation order = the counter in the auto-generated id
     # (collected footnotes take the references inside their bodies to the end of the tree)
     def created(r):
@@ -170,10 +233,6 @@ def abstract_tree(doc):
     for f in footnodes:
         for x in f.get("ids", []):
             id2foot[x] = f
-
-    def flabel(f):
-        return (list(f["names"]) + list(f.get("dupnames", [])) + ["?"])[0]
-
     refs = []
     for r in refnodes:
         if isinstance(r, nodes.problematic):
@@ -190,42 +249,46 @@ def abstract_tree(doc):
         foots.setdefault(flabel(f), []).append(
             {"display": lab[0].astext() if lab else None, "backrefs": [id2idx.get(b, -1) for b in f.get("backrefs", [])],
              "body": int(m.group(1)) if m else None})
+    return refs, foots
 
-    def inner(node, out):
-        for c in node.children:
-            if isinstance(c, nodes.footnote):
-                out.append("f:" + flabel(c))
-            elif isinstance(c, nodes.system_message):
-                out.append("m")
-            elif isinstance(c, (nodes.block_quote, nodes.bullet_list, nodes.list_item)):
-                inner(c, out)
-            elif isinstance(c, nodes.Element):
-                out.append("o")
-        return out
 
-    layout = []
-    for c in doc.children:
+def abstract_layout(node):
+    """the children of a node as far as footnotes are concerned, at every depth:
+    footnote -> "F:label", system_message -> "M", transition -> "T"; block quotes, list items, definitions and
+    sections are containers ["B", ...]; list / definition-list wrappers are transparent; anything else "O" """
+    from docutils import nodes
+    out = []
+    for c in node.children:
         if isinstance(c, nodes.footnote):
-            layout.append("F:" + flabel(c))
+            out.append("F:" + flabel(c))
         elif isinstance(c, nodes.system_message):
-            layout.append("M")
+            out.append("M")
         elif isinstance(c, nodes.transition):
-            layout.append("T")
+            out.append("T")
         elif isinstance(c, nodes.section) and "system-messages" in c.get("classes", []):
             continue
-        elif isinstance(c, (nodes.block_quote, nodes.bullet_list)):
-            layout.append("B[" + ",".join(inner(c, [])) + "]")
-        else:
-            layout.append("O")
-    return refs, foots, layout
+        elif isinstance(c, (nodes.block_quote, nodes.list_item, nodes.definition, nodes.section)):
+            out.append(["B", abstract_layout(c)])
+        elif isinstance(c, (nodes.bullet_list, nodes.enumerated_list, nodes.definition_list, nodes.definition_list_item)):
+            out += abstract_layout(c)
+        elif isinstance(c, nodes.Element):
+            out.append("O")
+    return out
+
+
+def abstract_tree(doc):
+    refs, foots = abstract_refs_foots(doc)
+    return refs, foots, abstract_layout(doc)
 
 
 def observe(case):
     from gen.c11_docs import render
     from lib.impl import publish, parse_warnings
     text, info = render(case["arr"])
+    st = dict(SETTINGS)
+    st.update({"myst_footnote_sort": case["sort"], "myst_footnote_transition": case["trans"]})
     try:
-        doc, ws = publish(text, {"myst_footnote_sort": case["sort"], "myst_footnote_transition": case["trans"]})
+        doc, ws = publish(text, st)
     except Exception as e:
         return {"exc": type(e).__name__, "sig": exc_signature(e), "text": text, "info": info}
     refs, foots, layout = abstract_tree(doc)
@@ -233,9 +296,7 @@ def observe(case):
     return {"exc": None, "text": text, "info": info, "refs": refs, "foots": foots, "layout": layout,
             "nbody": len(re.findall(r"body\d+z", doc.astext())),
             "wlines": sorted((w["line"] or 0) for w in warns if w["tag"] == "ref.footnote"),
-            "errors": sum(1 for w in warns if w["level"] == "ERROR" and "Too many autonumbered" in w["msg"]),
-            "other_warn": [w["msg"][:80] for w in warns if w["tag"] != "ref.footnote" and w["level"] in ("WARNING", "SEVERE")
-                           ]}
+            "errors": sum(1 for w in warns if w["level"] == "ERROR" and "Too many autonumbered" in w["msg"])}
 
 
 def exc_signature(e):
@@ -247,7 +308,7 @@ def exc_signature(e):
     return f"exception:{type(e).__name__}:{site}"
 
 
-def compare(obs, m):
+def compare(obs, m, layout=True):
     if obs["exc"] or m["exc"]:
         return None if obs["exc"] == m["exc"] else f"impl raised {obs['exc']}, model {m['exc']}"
     if len(obs["refs"]) != len(m["refs"]):
@@ -257,7 +318,7 @@ def compare(obs, m):
             return f"reference {i} [^{b['label']}]: points at {a['target']!r}, model {b['target']!r}"
         if b["target"] is not None and a["text"] != b["text"]:
             return f"reference {i} [^{b['label']}]: shows {a['text']!r}, model {b['text']!r}"
-    fo = {k: v for k, v in obs["foots"].items()}
+    fo = obs["foots"]
     if sorted(fo) != sorted(m["foots"]) or any(len(v) != 1 for v in fo.values()):
         return f"footnotes {sorted((k, len(v)) for k, v in fo.items())}, model {sorted(m['foots'])}"
     for k, v in m["foots"].items():
@@ -266,10 +327,10 @@ def compare(obs, m):
             return f"footnote {k}: label {a['display']!r}, model {v['display']!r}"
         if a["backrefs"] != v["backrefs"]:
             return f"footnote {k}: backrefs {a['backrefs']}, model {v['backrefs']}"
-        if a["body"] != v["body"]:
+        if v["body"] is not None and a["body"] != v["body"]:
             return f"footnote {k}: body {a['body']}, model {v['body']}"
-    if obs["layout"] != m["layout"]:
-        return f"layout {obs['layout']}, model {m['layout']}"
+    if layout and obs["layout"] != m["layout"]:
+        return f"layout {lay_str(obs['layout'])}, model {lay_str(m['layout'])}"
     if obs["wlines"] != m["wlines"]:
         return f"ref.footnote warnings at lines {obs['wlines']}, model {m['wlines']}"
     if obs["errors"] != m["too_many"]:
@@ -299,23 +360,32 @@ def pmap(fn, items, chunksize=32):
         return list(ex.map(fn, items, chunksize=chunksize))
 
 
+FIXED = [
+    [["R", ["b"]], ["R", ["a"]], ["D", "a", []], ["D", "b", []]],
+    [["R", ["b", "a", "1", "b", "zz"]], ["D", "a", []], ["D", "b", []], ["B", "quote", [["D", "1", []], ["D", "a", []]]], ["D", "u", []]],
+    [["D", "a", ["a"]]],
+    [["D", "a", []], ["D", "a", []]],
+    [["R", ["10", "2", "x"]], ["D", "x", []], ["D", "10", []], ["D", "2", []]],
+    [["R", ["01", "a"]], ["D", "01", []], ["D", "a", []]],
+    [["R", ["a", "2"]], ["D", "2", []], ["D", "a", []], ["D", "b", []], ["R", ["b"]]],
+    [["R", ["²", "1"]], ["D", "²", []], ["D", "1", []]],
+    [["R", ["٣", "a"]], ["D", "a", []], ["D", "٣", []]],
+    # nesting: list > quote > definition, definition-list definition, sections with a reference in the heading
+    [["R", ["a"], "table"], ["B", "list", [["B", "quote", [["D", "a", ["b"]], ["R", ["1"]]]], ["D", "b", []]]],
+     ["B", "dl", [["R", ["a"], "field"], ["D", "1", []], ["B", "list", [["D", "a", []]]]]],
+     ["B", "section", [["R", ["b"]], ["B", "quote", [["B", "dl", [["D", "c", []]]]]]], ["c"]], ["B", "section", [["D", "z", []]], []]],
+    [["B", "section", [["D", "a", []]], ["a"]]],
+    [["B", "quote", [["B", "quote", [["B", "quote", [["B", "list", [["D", "a", []]]]]]]]]], ["R", ["a"]]],
+]
+
+
 def case_stream(ctx, for_search=False):
     from gen.c11_docs import small_arrangements, random_arrangement
     settings = [(s, t) for s in (True, False) for t in (True, False)]
-    fixed = [
-        [["R", ["b"]], ["R", ["a"]], ["D", "a", []], ["D", "b", []]],
-        [["R", ["b", "a", "1", "b", "zz"]], ["D", "a", []], ["D", "b", []], ["B", "quote", [["d", "1", []], ["d", "a", []]]], ["D", "u", []]],
-        [["D", "a", ["a"]]],
-        [["D", "a", []], ["D", "a", []]],
-        [["R", ["10", "2", "x"]], ["D", "x", []], ["D", "10", []], ["D", "2", []]],
-        [["R", ["01", "a"]], ["D", "01", []], ["D", "a", []]],
-        [["R", ["a", "2"]], ["D", "2", []], ["D", "a", []], ["D", "b", []], ["R", ["b"]]],
-        [["R", ["\u00b2", "1"]], ["D", "\u00b2", []], ["D", "1", []]],
-        [["R", ["\u0663", "a"]], ["D", "a", []], ["D", "\u0663", []]],
-    ]
-    for arr in fixed:
+    for arr in FIXED:
         for s, t in settings:
             yield {"kind": "arr", "arr": arr, "sort": s, "trans": t}
+    yield dict(KNOWN_MANY)
     thorough = ctx.tier == "thorough"      # a deepened quick run only widens the random stream
     n1 = ctx.budget(4, 5, 5 if ctx.tier == "thorough" else 4)
     for arr in small_arrangements(["a", "b", "1"], n1):
@@ -330,7 +400,7 @@ def case_stream(ctx, for_search=False):
         for arr in small_arrangements(["a", "1"], 6, with_box=False):
             for s, t in settings[:2]:
                 yield {"kind": "arr", "arr": arr, "sort": s, "trans": t}
-    for i in range(ctx.budget(2000, 30000, 45000 if ctx.tier == 'thorough' else 25000)):
+    for i in range(ctx.budget(3000, 40000, 55000 if ctx.tier == 'thorough' else 25000)):
         s, t = settings[i % 4]
         yield {"kind": "arr", "arr": random_arrangement(ctx.rng, big=(i % 5 == 0)), "sort": s, "trans": t}
 
@@ -339,6 +409,7 @@ def corr(ctx):
     if not ctx.have_runner:
         return
     from gen.c11_docs import render
+    corr_docutils_only(ctx)
     cases = list(case_stream(ctx))
     obs = pmap(_observe_safe, cases)
     for c, o in zip(cases, obs):
@@ -353,23 +424,144 @@ def corr(ctx):
         info = o.get("info") or render(c["arr"])[1]
         m = parse_model(reply, info)
         d = compare(o, m)
-        nd = len(info["defs"])
-        nr = len(info["ref_labels"])
         ctx.count(f"corr:sort={int(c['sort'])}:trans={int(c['trans'])}")
-        if nd and nr:
+        if info["defs"] and info["ref_labels"]:
             ctx.nontriv((repr(c["arr"]), c["sort"], c["trans"]))
+        if "'B'" in repr(c["arr"]).replace('"', "'") and repr(c["arr"]).count("'B'") > 1:
+            ctx.count("corr:nested-containers")
         if o.get("exc"):
             ctx.count("corr:impl-exception:" + str(o["exc"]))
         if d is not None:
             ctx.count("corr:disagree")
             if len(ctx.disagreements) < 40:
                 c2 = dict(c)
-                c2["text"] = o.get("text")
-                ctx.disagree("footnote pipeline: " + d, c2, {k: o.get(k) for k in ("refs", "foots", "layout", "wlines", "exc")}, m)
+                c2["text"] = (o.get("text") or "")[:3000]
+                if len(repr(c2["arr"])) > 4000:
+                    c2 = {k: v for k, v in c2.items() if k != "text"}
+                ctx.disagree("footnote pipeline: " + d, c2, {k: o.get(k) for k in ("layout", "wlines", "exc")}, {k: m.get(k) for k in ("layout", "wlines", "exc")})
     ctx.sample({"arrangement": cases[40]["arr"], "text": obs[40].get("text"), "sort": cases[40]["sort"], "trans": cases[40]["trans"]})
-    ctx.oracle_tests["O_footnotes_xform"] = len(cases)
     if ctx.tier == "thorough" or ctx.deep:
         corr_sphinx(ctx)
+
+
+# ---- docutils' Footnotes transform alone (oracle hypothesis O_footnotes_xform) ----
+
+def registry_cases(ctx):
+    """(extra names, autofootnotes in registry order, manual footnotes, reference labels)"""
+    import itertools
+    autos_opts = [[], ["a"], ["b"], ["a", "b"], ["b", "a"]]
+    man_opts = [[], ["1"], ["2"], ["1", "2"], ["2", "1"]]
+    ref_labels = ["a", "b", "1", "2", "zz"]
+    maxr = ctx.budget(2, 3, 3)
+    refseqs = [list(t) for n in range(maxr + 1) for t in itertools.product(ref_labels, repeat=n)]
+    for autos in autos_opts:
+        for man in man_opts:
+            free = [x for x in ("1", "2", "3") if x not in man]
+            for k in range(len(free) + 1):
+                for extra in itertools.combinations(free, k):
+                    for refs in refseqs:
+                        yield {"kind": "registry", "extra": list(extra), "autos": autos, "manual": man, "refs": refs}
+    # a few larger ones
+    for _ in range(ctx.budget(300, 3000, 3000)):
+        labs = ["a", "b", "c", "d"]
+        ctx.rng.shuffle(labs)
+        autos = labs[:ctx.rng.randint(0, 4)]
+        nums = [str(x) for x in ctx.rng.sample(range(1, 9), ctx.rng.randint(0, 4))]
+        man = nums[:ctx.rng.randint(0, len(nums))]
+        extra = nums[len(man):]
+        refs = [ctx.rng.choice(autos + man + ["zz", "9"]) for _ in range(ctx.rng.randint(0, 7))]
+        yield {"kind": "registry", "extra": extra, "autos": autos, "manual": man, "refs": refs}
+
+
+def observe_registry(case):
+    """build a docutils document by hand, register everything through document.note_*, run only Footnotes"""
+    import io
+    from docutils import nodes
+    from docutils.frontend import get_default_settings
+    from docutils.parsers.rst import Parser as RstParser
+    from docutils.transforms.references import Footnotes
+    from docutils.utils import new_document
+    st = get_default_settings(RstParser)
+    ws = io.StringIO()
+    st.warning_stream = ws
+    st.report_level = 1
+    st.halt_level = 5
+    doc = new_document("<registry>", st)
+    for nm in case["extra"]:
+        t = nodes.target("", "", names=[nm])
+        doc += t
+        doc.note_explicit_target(t, t)
+    p = nodes.paragraph()
+    doc += p
+    refnodes = []
+    for lab in case["refs"]:
+        r = nodes.footnote_reference(f"[{lab}]_")
+        if lab.isdigit():
+            r += nodes.Text(lab)
+        else:
+            r["auto"] = 1
+            doc.note_autofootnote_ref(r)
+        r["refname"] = lab
+        doc.note_footnote_ref(r)
+        p += r
+        refnodes.append(r)
+    foots = {}
+    for lab in case["autos"]:
+        f = nodes.footnote("", nodes.paragraph("", "t"), auto=1, names=[lab])
+        doc.note_autofootnote(f)
+        doc.note_explicit_target(f, f)
+        doc += f
+        foots[lab] = f
+    for lab in case["manual"]:
+        f = nodes.footnote("", nodes.label("", lab), nodes.paragraph("", "t"), names=[lab])
+        doc.note_footnote(f)
+        doc.note_explicit_target(f, f)
+        doc += f
+        foots[lab] = f
+    try:
+        Footnotes(doc).apply()
+    except Exception as e:
+        return {"exc": type(e).__name__}
+    id2foot = {f["ids"][0]: l for l, f in foots.items()}
+    id2idx = {r["ids"][0]: i for i, r in enumerate(refnodes)}
+    refs = [{"label": l, "target": id2foot.get(r.get("refid")), "text": r.astext() or None}
+            for l, r in zip(case["refs"], refnodes)]
+    fo = {}
+    for l, f in foots.items():
+        lab = [c for c in f.children if isinstance(c, nodes.label)]
+        fo[l] = [{"display": lab[0].astext() if lab else None, "backrefs": [id2idx.get(b, -1) for b in f.get("backrefs", [])],
+                  "body": None}]
+    return {"exc": None, "refs": refs, "foots": fo, "layout": [], "wlines": [],
+            "errors": ws.getvalue().count("Too many autonumbered")}
+
+
+def corr_docutils_only(ctx):
+    cases = list(registry_cases(ctx))
+    lines = []
+    for c in cases:
+        f = ["footnotes", enc_strs(c["extra"]), enc_strs(c["autos"]), enc_strs(c["manual"]), "R", str(len(c["refs"]))]
+        for l in c["refs"]:
+            f += [enc_str(l), "0" if l.isdigit() else "1"]
+        lines.append("\t".join(f))
+    outs = model_run_parallel(PID, lines)
+    obs = pmap(observe_registry, cases, chunksize=64)
+    for c, o, reply in zip(cases, obs, outs):
+        ctx.corr_cases += 1
+        ctx.count("corr:docutils-only")
+        if reply.startswith("!"):
+            m = {"exc": reply[1:]}
+        else:
+            refs_s, foots_s, warn_s = reply.split(" # ")
+            refs, foots = decode_refs_foots(refs_s, foots_s)
+            for v in foots.values():
+                v["body"] = None
+            m = {"exc": None, "refs": refs, "foots": foots, "layout": [], "wlines": [],
+                 "too_many": 0 if warn_s == "." else warn_s.split(" ").count("X")}
+        d = compare(o, m, layout=False)
+        if d is not None and len(ctx.disagreements) < 40:
+            ctx.disagree("docutils Footnotes transform vs docutils_footnotes: " + d, c,
+                         {k: o.get(k) for k in ("refs", "foots", "errors", "exc")}, m)
+    ctx.oracle_tests["O_footnotes_xform"] = len(cases)
 
 
 def corr_sphinx(ctx):
@@ -377,6 +569,7 @@ def corr_sphinx(ctx):
     from gen.c11_docs import render, random_arrangement, small_arrangements
     from lib.impl import SphinxProject
     arrs = [a for a in small_arrangements(["a", "b", "1"], 3)][:: 8]
+    arrs += [a for a in FIXED if "²" not in repr(a)]
     arrs += [random_arrangement(ctx.rng, big=(i % 4 == 0)) for i in range(ctx.budget(0, 120, 120))]
     for s in (True, False):
         for t in (True, False):
@@ -386,7 +579,7 @@ def corr_sphinx(ctx):
                 text, info = render(a)
                 files[f"d{i}.md"] = text
                 infos.append(info)
-            conf = f"myst_footnote_sort = {s}\nmyst_footnote_transition = {t}\n"
+            conf = f"myst_footnote_sort = {s}\nmyst_footnote_transition = {t}\nmyst_enable_extensions = ['deflist', 'fieldlist']\n"
             try:
                 res = SphinxProject(files, conf).build()
             except Exception as e:
@@ -404,18 +597,40 @@ def corr_sphinx(ctx):
                     continue
                 m = parse_model(reply, infos[i])
                 refs, foots, layout = abstract_tree(doc)
+                # create_warning(line=..) under Sphinx prints the location as '<file>.md.rst:N' (path taken for a docname)
                 wl = sorted(int(x) for x in re.findall(rf"d{i}\.md(?:\.rst)?:(\d+): WARNING: [^\n]*\[ref\.footnote\]", warns))
                 # Sphinx removes system_message nodes from the tree (FilterSystemMessages)
                 if not m["exc"]:
-                    m["layout"] = [x if not x.startswith("B[") else "B[" + ",".join(i for i in x[2:-1].split(",") if i and i != "m") + "]"
-                                   for x in m["layout"] if x != "M"]
+                    m["layout"] = lay_strip(m["layout"], drop=("M",))
                 o = {"exc": None, "refs": refs, "foots": foots, "layout": layout, "wlines": wl, "errors": m.get("too_many", 0)}
                 d = compare(o, m)
                 if d is not None and len(ctx.disagreements) < 40:
-                    ctx.disagree("footnote pipeline (Sphinx): " + d, case, {"refs": refs, "foots": foots, "layout": layout, "wlines": wl}, m)
+                    ctx.disagree("footnote pipeline (Sphinx): " + d, case, {"layout": layout, "wlines": wl}, {k: m.get(k) for k in ("layout", "wlines", "exc")})
 
 
 # ------------------------------------------------------------------ direct property oracle
+
+def written_layout(arr):
+    """the children as written: a duplicate definition leaves a message in its place"""
+    from gen.c11_docs import to_model
+    seen = set()
+
+    def conv(items):
+        out = []
+        for it in items:
+            if it[0] == "R":
+                out.append("O")
+            elif it[0] == "D":
+                if it[1] in seen:
+                    out.append("M")
+                else:
+                    seen.add(it[1])
+                    out.append("F:" + it[1])
+            else:
+                out.append(["B", conv(it[1])])
+        return out
+    return conv(to_model(arr))
+
 
 def check_arr(ctx, case, obs=None):
     """The clauses of the property evaluated on the real doctree; uses only the arrangement."""
@@ -423,7 +638,8 @@ def check_arr(ctx, case, obs=None):
     o = obs if obs is not None else observe(case)
     text, info = o["text"], o["info"]
     wit = dict(case)
-    wit["text"] = text
+    if len(text) < 3000:
+        wit["text"] = text
     if o["exc"]:
         ctx.fail(o["sig"], wit, f"publishing raised {o['exc']}", "a doctree", o["exc"])
         return False
@@ -433,7 +649,7 @@ def check_arr(ctx, case, obs=None):
     def fail(sig, what, exp=None, obs=None):
         nonlocal ok
         ok = False
-        ctx.fail(sig, wit, what, exp, obs)
+        ctx.fail(sig, wit, what[:1500], exp if len(repr(exp)) < 2000 else None, obs if len(repr(obs)) < 2000 else None)
 
     defs = info["defs"]
     first = {}
@@ -475,8 +691,7 @@ def check_arr(ctx, case, obs=None):
             fail("ref:dangling-resolved", f"reference {i} [^{l}] has no definition but points at {r['target']!r}", None, r["target"])
     for l, f in ((l, foots[l][0]) for l in first):
         if f["backrefs"] != by_label.get(l, []):
-            fail("backrefs", f"footnote [^{l}] lists back-references {f['backrefs']}, its references are {by_label.get(l, [])}",
-                 by_label.get(l, []), f["backrefs"])
+            fail("backrefs", f"footnote [^{l}] lists back-references {f['backrefs'][:20]}, its references are {by_label.get(l, [])[:20]}")
     disp = [foots[l][0]["display"] for l in first]
     if len(set(disp)) != len(disp) or any(not d for d in disp):
         fail("labels:distinct", f"displayed labels are not pairwise distinct: {disp}", None, disp)
@@ -509,11 +724,11 @@ def check_arr(ctx, case, obs=None):
     # collection
     exp_layout = written_layout(arr)
     if sort:
-        tail = [x for x in layout if x.startswith("F:")]
+        tail = [x for x in layout if isinstance(x, str) and x.startswith("F:")]
         k = len(layout) - len(tail)
         head = layout[:k]
-        if layout[k:] != tail or any("f:" in x for x in head) or len(tail) != len(first):
-            fail("collect:not-at-end", f"footnote_sort=True but the document's children are {layout}", None, layout)
+        if layout[k:] != tail or lay_foots(head) or len(tail) != len(first):
+            fail("collect:not-at-end", f"footnote_sort=True but the document's children are {lay_str(layout)}", None, lay_str(layout))
         else:
             keys = []
             for x in tail:
@@ -522,17 +737,19 @@ def check_arr(ctx, case, obs=None):
             if any(a > b for a, b in zip(keys, keys[1:])):
                 fail("collect:order", f"collected footnotes are labelled {[foots[x[2:]][0]['display'] for x in tail]}", "ascending", None)
             others = [x for x in head if x != "T"]
-            want_others = [strip_box(x) for x in exp_layout if not x.startswith("F:")]
+            want_others = lay_strip(exp_layout)
             if others != want_others:
-                fail("collect:other-blocks", f"non-footnote blocks became {others}, written {want_others}", want_others, others)
+                fail("collect:other-blocks", f"non-footnote blocks became {lay_str(others)}, written {lay_str(want_others)}",
+                     lay_str(want_others), lay_str(others))
             nT = head.count("T")
             wantT = 1 if (trans and tail and others) else 0
             if nT != wantT or (nT and head[-1] != "T"):
-                fail("collect:transition", f"transition count {nT} (children {layout}), expected {wantT} directly before the footnotes "
-                     f"(footnote_transition={trans})", wantT, nT)
+                fail("collect:transition", f"transition count {nT} (children {lay_str(layout)}), expected {wantT} directly before the "
+                     f"footnotes (footnote_transition={trans})", wantT, nT)
     else:
         if layout != exp_layout:
-            fail("stay-put", f"footnote_sort=False but the children are {layout}, written {exp_layout}", exp_layout, layout)
+            fail("stay-put", f"footnote_sort=False but the children are {lay_str(layout)}, written {lay_str(exp_layout)}",
+                 lay_str(exp_layout), lay_str(layout))
     # warnings
     refd = set(rl)
     want = sorted([d["line"] for d in dups] + [d["line"] for l, d in first.items() if l not in refd])
@@ -541,42 +758,6 @@ def check_arr(ctx, case, obs=None):
         fail("warnings:dup-unreferenced", f"ref.footnote warnings at lines {got}, expected one per duplicate/unreferenced definition: {want}",
              want, got)
     return ok
-
-
-def strip_box(x):
-    if not x.startswith("B["):
-        return x
-    inner = [i for i in x[2:-1].split(",") if i and not i.startswith("f:")]
-    return "B[" + ",".join(inner) + "]"
-
-
-def written_layout(arr):
-    """the children as written: a duplicate definition leaves a message in its place"""
-    seen = set()
-    out = []
-    for it in arr:
-        if it[0] == "R":
-            out.append("O")
-        elif it[0] == "D":
-            if it[1] in seen:
-                out.append("M")
-            else:
-                seen.add(it[1])
-                out.append("F:" + it[1])
-        else:
-            inner = []
-            for sub in it[2]:
-                if sub[0] == "r":
-                    inner.append("o")
-                elif sub[1] in seen:
-                    inner.append("m")
-                else:
-                    seen.add(sub[1])
-                    inner.append("f:" + sub[1])
-            if not it[2]:
-                inner.append("o")
-            out.append("B[" + ",".join(inner) + "]")
-    return out
 
 
 def check_case(ctx, case, obs=None):
@@ -591,7 +772,7 @@ def _check_worker(case):
     try:
         check_case(c, case, case.pop("_obs", None))
     except Exception as e:  # pragma: no cover
-        c.fail("harness:" + type(e).__name__, case, repr(e))
+        c.fail("harness:" + type(e).__name__, {k: v for k, v in case.items() if k != "_obs"}, repr(e))
     return c.failures
 
 
